@@ -335,7 +335,7 @@ const prelude = `(declare-datatypes ((Slice 0)) (((mk-slice (s-obj Int) (s-off I
 (declare-fun bxor (Int Int) Int)
 (declare-fun implements (Int Int) Bool)
 (declare-fun maplen (Int) Int)
-(assert (forall ((s Int)) (! (>= (slen s) 0) :pattern ((slen s)))))
+(assert (forall ((s Int)) (! (and (>= (slen s) 0) (<= (slen s) 9223372036854775807)) :pattern ((slen s)))))
 (assert (forall ((s Int)) (! (=> (= (slen s) 0) (= s 0)) :pattern ((slen s)))))
 (assert (= (slen 0) 0))
 (assert (forall ((s Int) (k Int)) (! (and (<= 0 (sbyte s k)) (< (sbyte s k) 256)) :pattern ((sbyte s k)))))
